@@ -182,6 +182,13 @@ func RunOracles(prop string, cases []GenCase, impl map[string]map[string]string)
 			case strings.HasPrefix(first.Pair, "truth-"):
 				cmp = []string{"t0"}
 				oracle = "truth-positions-disagree"
+				if b, has := kv["b0"]; has {
+					want := map[string]string{"1": "1", "0": "0", "-": "E"}[fkv["t0"]]
+					if b != want {
+						viol(gc, oracle, fmt.Sprintf("%s (%s): truth %s   vs   %s (%s): Run returns %s   [%s | %s]", first.Case.ID, first.Role, fkv["t0"],
+							gc.Case.ID, gc.Role, b, truncate(first.Case.Script, 200), truncate(gc.Case.Script, 200)))
+					}
+				}
 			default:
 				continue
 			}
